@@ -410,6 +410,8 @@ def dynamic(pid, tier, seed, cases):
             random.Random(seed + len(items)).shuffle(items)
             perm.append(run.Case(c.cid, c.doc, items, c.emit_version, c.partial, c.files))
         runs.append(run.run_impl_only(perm))
+        # history: the files are written a second time over longer left-overs of a first generation
+        runs.append(run.run_impl_only(sub, env={"SLINKY_VERIF_DIRTY": "1"}))
         for c in sub:
             outs = [json.dumps(run.normalise(r[c.cid]), sort_keys=True) for r in runs]
             res["evaluations"] += 1
